@@ -80,4 +80,16 @@ def Obs.map (g : ο → ο') : Obs ο → Obs ο'
 def toC06 (vs : List (Item (C06.Coord Int))) : List ((Nat → Nat → Nat → Int) × C06.Coord Int × Option Ctx) :=
   vs.map (fun v => (bisect, v.data, v.ctx))
 
+/-- the exact sum of typed numbers -/
+def numSum (vs : List (Item Num)) : Int := (vs.map (·.data.val)).sum
+
+/-- is one of the filled numbers a float? -/
+def anyFloat (vs : List (Item Num)) : Bool := vs.any (·.data.isFloat)
+
+/-- forget the Python types -/
+def eraseNum (vs : List (Item Num)) : List (Item Int) := vs.map (fun v => ⟨v.data.val, v.ctx⟩)
+
+/-- the squares as they are filled into `sum_sq`: bare data -/
+def bareSq (vs : List (Item Int)) : List (Item Int) := vs.map (fun v => ⟨v.data ^ 2, none⟩)
+
 end Lena.C09
